@@ -89,6 +89,10 @@ def jobs(tier, seed):
         pat = [hi, 1 - hi, hi, hi, hi, 1 - hi, hi, hi, hi, hi, 1 - hi, hi, hi, hi, hi]
         js.append({'harness': 'sp', 'weight': 60, 'opts': {'max_paths': 4000},
                    'cfg': {'kind': 'SP', 'rate': 8, 'table': t, 'flows': pat, 'sorts': 'int', 'burst': [0] + [1] * 14, 'smax': 2}})
+    # arrivals in the very instant a transmission ends, after the delivery (late wake-up)
+    for t in tables:
+        js.append({'harness': 'sp', 'weight': 40, 'opts': {'max_paths': 8000},
+                   'cfg': {'kind': 'SP', 'rate': 8, 'table': t, 'flows': [0, 1, 1, 0], 'sorts': 'int', 'split_gap': [1, 3], 'smax': 3}})
     # priority values need not be integers (2.25 < 2.75: same integer part)
     for t in ({0: 2.25, 1: 2.75}, {0: 2.75, 1: 2.25}):
         js.append({'harness': 'sp', 'weight': 12,
